@@ -447,8 +447,12 @@ func (c *otApplyContext) matchPropertiesMark(glyph GID, glyphProps uint16, match
 	/* If using mark filtering sets, the high uint16 of
 	 * matchProps has the set index. */
 	if uint16(matchProps)&font.UseMarkFilteringSet != 0 {
-		_, has := c.gdef.MarkGlyphSetsDef.Coverages[matchProps>>16].Index(gID(glyph))
-		return has
+		sets := c.gdef.MarkGlyphSetsDef.Coverages
+		if setIndex := int(matchProps >> 16); setIndex < len(sets) && sets[setIndex] != nil {
+			_, has := sets[setIndex].Index(gID(glyph))
+			return has
+		}
+		return false // a missing set covers nothing
 	}
 
 	/* The second byte of matchProps has the meaning
